@@ -329,3 +329,60 @@ Proof.
   - intros k. now rewrite H2, add_request_rinfo.
   - intros t' H. apply H3. now apply add_request_task_exists.
 Qed.
+
+(* what start() leaves alone: everything but inputRequests, the task's waitCount / slots, the log and rule look-ups *)
+Definition keeps (s s' : istate) : Prop :=
+  is_ready s' = is_ready s /\ (forall k, rinfo_of s' k = rinfo_of s k) /\
+  (forall t', aget (is_tasks s) t' <> None -> aget (is_tasks s') t' <> None) /\
+  is_fintasks s' = is_fintasks s /\ is_toscan s' = is_toscan s /\ is_fininreq s' = is_fininreq s /\
+  is_outstanding s' = is_outstanding s /\ is_epoch s' = is_epoch s.
+Lemma keeps_refl s : keeps s s. Proof. repeat split; auto. Qed.
+Lemma keeps_trans s1 s2 s3 : keeps s1 s2 -> keeps s2 s3 -> keeps s1 s3.
+Proof.
+  intros (A1 & A2 & A3 & A4 & A5 & A6 & A7 & A8) (B1 & B2 & B3 & B4 & B5 & B6 & B7 & B8).
+  repeat split; try congruence; auto. intros k. now rewrite B2.
+Qed.
+Lemma keeps_kind s s' k : keeps s s' -> kind_of s' k = kind_of s k.
+Proof. intros (_ & H & _). unfold kind_of. now rewrite H. Qed.
+
+Lemma keeps_add_request s t inp slot o sg : keeps s (add_request s t inp slot o sg).
+Proof.
+  split; [apply add_request_ready|]. split; [intros; apply add_request_rinfo|]. split; [intros; now apply add_request_task_exists|].
+  unfold add_request. destruct (aget (is_tasks s) t); [|repeat split]. destruct (negb _); [repeat split|].
+  unfold mod_ti. destruct (aget _ _); autorewrite with iv; repeat split.
+Qed.
+Lemma keeps_add_reqs ks : forall s t slot sg, keeps s (add_reqs s t ks slot sg).
+Proof. induction ks as [|x ks IH]; intros; cbn [add_reqs]; [apply keeps_refl|]. eapply keeps_trans; [apply keeps_add_request|apply IH]. Qed.
+Lemma keeps_add_follows ks : forall s t, keeps s (add_follows s t ks).
+Proof. induction ks as [|x ks IH]; intros; cbn [add_follows]; [apply keeps_refl|]. eapply keeps_trans; [apply keeps_add_request|apply IH]. Qed.
+Lemma keeps_start_group rules s t g : keeps s (start_group rules s t g).
+Proof. unfold start_group. destruct g; [apply keeps_add_reqs|apply keeps_add_reqs|apply keeps_add_follows]. Qed.
+Lemma keeps_fold {A} (f : istate -> A -> istate) (Hf : forall s a, keeps s (f s a)) l : forall s, keeps s (fold_left f l s).
+Proof. induction l as [|a l IH]; intros s; cbn [fold_left]; [apply keeps_refl|]. eapply keeps_trans; [apply Hf|apply IH]. Qed.
+Lemma keeps_iemit s e : keeps s (iemit s e). Proof. repeat split; auto. Qed.
+Lemma keeps_mod_ti s t f : keeps s (mod_ti s t f).
+Proof.
+  unfold mod_ti. destruct (aget (is_tasks s) t) eqn:Hg; [|repeat split; auto]. repeat split; autorewrite with iv; auto.
+  intros t' H. now rewrite (aget_aset_exists _ _ _ _ _ Hg).
+Qed.
+Lemma keeps_task_start rules ord s t : keeps s (task_start rules ord s t).
+Proof.
+  unfold task_start. cbn zeta. eapply keeps_trans; [apply keeps_iemit|]. eapply keeps_trans; [apply keeps_mod_ti|].
+  apply keeps_fold. intros. apply keeps_start_group.
+Qed.
+
+Lemma in_requestable_req rl x : In x (r_req rl) -> In x (requestable rl).
+Proof. unfold requestable. intros. apply in_or_app. now left. Qed.
+Lemma in_requestable_single rl x : In x (r_single rl) -> In x (requestable rl).
+Proof. unfold requestable. intros. apply in_or_app. right. apply in_or_app. now left. Qed.
+Lemma in_requestable_follow rl x : In x (r_follow rl) -> In x (requestable rl).
+Proof. unfold requestable. intros. apply in_or_app. right. apply in_or_app. right. apply in_or_app. now left. Qed.
+
+Lemma Inv_start_group rules c s t g :
+  Inv rules c s -> aget (is_tasks s) t <> None -> kind_of s t = KWaiting -> ~ In t (is_ready s) -> Inv rules c (start_group rules s t g).
+Proof.
+  intros. unfold start_group. destruct g.
+  - apply Inv_add_reqs; auto. apply in_requestable_req.
+  - apply Inv_add_reqs; auto. apply in_requestable_single.
+  - apply Inv_add_follows; auto. apply in_requestable_follow.
+Qed.
